@@ -22,7 +22,7 @@
 ** own; otherwise the failure is the component's (reported at its own, shorter case) and
 ** the composite aspect is counted as masked.
 **
-** Parameters:  phase=base|range|slice|zip|filter|map|compose|heap|history|assign|midop (rangeneg=1 zipget=1 sliceget=1: see proposed/D29, D30, D31)   hmax=N (history: largest size)
+** Parameters:  phase=base|range|slice|zip|filter|map|compose|heap|history|assign|midop|gcitems (rangeneg=1 zipget=1 sliceget=1: see proposed/D29, D30, D31)   hmax=N (history: largest size)
 **              kinds=all|array,list,tuple,htuple,table,tree,range   maxn=N  amax=N  rmax=N
 **              zmax=N (zip child length bound)  flmax=N (filter length bound)  cset=small|wide
 */
@@ -1243,11 +1243,11 @@ static void phase_history(void) {
 /* ==== phase=assign: assign(a, b) / copy(b) of generators and views must give an independent iterator =============
 **
 ** For Range, Slice, Zip, Filter, Map (heap objects made with new(); source b on the heap or a stack macro object):
-** after assign(a, b) - and for Filter / Map also c = copy(b) - the target walks like b in both directions and has
-** b's len; nested iteration over target and source yields len*len pairs with the right values; walking target,
-** source, target again gives the same items each time; after del(source) every item the target hands out is still a
-** live object with the right value; a target assigned from a stack object inside a helper that has returned still
-** walks correctly.  (copy of Range / Slice / Zip raises on the current tree and is not part of the grid.)
+** after assign(a, b) - and after c = copy(b) of a heap original or of a stack macro object made inside a helper that
+** returns - the target walks like b in both directions, has b's len and get(i); nested iteration over target and source
+** yields len*len pairs with the right values; walking target, source, target again gives the same items each time; after
+** del(source) every item the target hands out is still a live object with the right value; a target assigned / copied
+** from a stack object inside a helper that has returned still walks correctly; del(target) raises nothing.
 */
 
 enum { AK_RANGE, AK_SLICE, AK_ZIP, AK_FILTER, AK_MAP, AK_N };
@@ -1312,6 +1312,17 @@ static void __attribute__((noinline)) a_assign_from_stack(var target, struct apa
   }
 }
 
+/* copy() of a stack macro object inside a frame that returns before the copy is used */
+static var __attribute__((noinline)) a_copy_from_stack(struct aparam* q) {
+  switch (q->kind) {
+  case AK_RANGE: return copy(range($I(q->p[1]), $I(q->p[2]), $I(q->p[3])));
+  case AK_SLICE: return copy(slice(a_list, q->p[0] == 99 ? _ : (var)$I(q->p[0]), q->p[1] == 99 ? _ : (var)$I(q->p[1]), $I(q->p[2])));
+  case AK_ZIP: return copy(zip(a_zl[q->p[0]], a_za[q->p[1]]));
+  case AK_FILTER: return copy(filter(a_list, a_fpred));
+  default: return copy(map(a_list, a_fmap));
+  }
+}
+
 static void __attribute__((noinline)) a_scribble(void) {
   volatile char junk[4096];
   for (size_t i = 0; i < sizeof junk; i++) junk[i] = (char)0x5a;
@@ -1355,6 +1366,18 @@ static int a_len(var x, const char* who) {
   return 0;
 }
 
+/* get(x, i) is the i-th item (kinds with a positional get) */
+static int a_gets(var x, const char* who) {
+  if (a_kind == AK_FILTER) return 0;
+  static volatile int at; static volatile int64_t got; static const char* volatile bad; bad = NULL;
+  var e = VF_CATCH({
+    for (at = 0; at < aen; at = at + 1) { vf.executions++; got = a_code(a_kind, get(x, $I(at))); if (got != ae[at]) { bad = "get-wrong-item"; break; } }
+  });
+  if (e) { a_report("get-raises", "%s: get(%d) raised %s", who, at, vf_exc_name(e)); return 1; }
+  if (bad) { a_report(bad, "%s: get(%d) gives %" PRId64 ", expected %" PRId64, who, at, (int64_t)got, ae[at]); return 1; }
+  return 0;
+}
+
 /* for x in outer { for y in inner } must give |outer| * |inner| pairs with the right values */
 static int a_nested(var outer, var inner, const char* who) {
   static volatile int no, pairs; static const char* volatile bad; static volatile int64_t gx, gy, wx, wy;
@@ -1384,13 +1407,13 @@ static int a_nested(var outer, var inner, const char* who) {
 static var a_new(struct aparam* q) { return a_make(q); }
 
 static void a_case(struct aparam* q, struct aparam* other, int src, int scen) {
-  /* src: 0 heap source, 1 stack source in a returned frame, 2 copy(heap source) (Filter/Map) */
-  static const char* srcn[] = { "heap-source", "stack-source", "copy" };
+  /* src: 0 assign from a heap source, 1 assign from a stack source in a returned frame, 2 copy(heap original), 3 copy(stack original) in a returned frame */
+  static const char* srcn[] = { "heap-source", "stack-source", "copy", "copy-of-stack" };
   static const char* scn[] = { "walks", "nested", "sequential", "del-source" };
   char cs[200];
   snprintf(cs, sizeof cs, "assign kind=%s params=%d,%d,%d,%d source=%s scenario=%s", ak_name[q->kind], q->p[0], q->p[1], q->p[2], q->p[3], srcn[src], scn[scen]);
   if (vf.replay && strcmp(vf.replay, cs) != 0) return;
-  if (src == 1 && scen != 0) return;                 /* a stack source is gone after the helper: only the target is walked */
+  if ((src == 1 || src == 3) && scen != 0) return;   /* a stack source is gone after the helper: only the target is walked */
   if ((ncases++ & 63) == 0) vf_watchdog(60);
   vf_set_cur("%s", cs);
   a_kind = q->kind; a_src = srcn[src]; a_scen = scn[scen];
@@ -1403,6 +1426,7 @@ static void a_case(struct aparam* q, struct aparam* other, int src, int scen) {
   int bad = 0;
   var e = VF_CATCH({
     if (src == 2) { b = a_new(q); a = copy((var)b); }
+    else if (src == 3) { a = a_copy_from_stack(q); a_scribble(); }
     else {
       a = a_new(other);                              /* a target that was something else before */
       if (q->kind == AK_FILTER) a_mask = q->p[0];
@@ -1413,8 +1437,8 @@ static void a_case(struct aparam* q, struct aparam* other, int src, int scen) {
   if (e) { a_report("construct-raises", "new / assign / copy raised %s", vf_exc_name(e)); return; }
   switch (scen) {
   case 0:
-    bad = a_len((var)a, "target") || a_walk((var)a, 0, "target") || a_walk((var)a, 1, "target");
-    if (!bad && b) bad = a_len((var)b, "source") || a_walk((var)b, 0, "source after the assignment") || a_walk((var)b, 1, "source after the assignment");
+    bad = a_len((var)a, "target") || a_walk((var)a, 0, "target") || a_walk((var)a, 1, "target") || a_gets((var)a, "target") || a_walk((var)a, 0, "target after get");
+    if (!bad && b) bad = a_len((var)b, "source") || a_walk((var)b, 0, "source after the assignment") || a_walk((var)b, 1, "source after the assignment") || a_gets((var)b, "source");
     break;
   case 1:
     bad = a_nested((var)a, (var)b, "for x in target { for y in source }") || a_nested((var)b, (var)a, "for x in source { for y in target }");
@@ -1438,6 +1462,11 @@ static void a_case(struct aparam* q, struct aparam* other, int src, int scen) {
   }
   var ce = VF_CATCH({ if (a) del((var)a); if (b) del((var)b); });
   if (ce && !bad) a_report("del-raises", "deleting target and source afterwards raised %s", vf_exc_name(ce));
+  if (!ce && !bad && (src == 2 || src == 3)) {
+    /* a collection after del(copy) must find nothing half-built: allocate until the collector has had reason to run */
+    var ge = VF_CATCH({ for (int i = 0; i < 40; i++) { var t = new(Int, $I(i)); del(t); } });
+    if (ge) a_report("collection-after-del-raises", "allocating after del(copy) raised %s", vf_exc_name(ge));
+  }
   if (vf_want_sample()) vf_sample("%s", cs);
 }
 
@@ -1462,10 +1491,8 @@ static void phase_assign(void) {
   for (size_t i = 0; i < sizeof fm / sizeof fm[0]; i++) { struct aparam q = { AK_FILTER, { fm[i], 0, 0, 0 } }; P[np++] = q; }
   { struct aparam q = { AK_MAP, { 0, 0, 0, 0 } }; P[np++] = q; }
   struct aparam other[AK_N] = { { AK_RANGE, { 3, 0, 2, 1 } }, { AK_SLICE, { 3, 4, 1, 0 } }, { AK_ZIP, { 1, 2, 0, 0 } }, { AK_FILTER, { 0x04, 0, 0, 0 } }, { AK_MAP, { 0, 0, 0, 0 } } };
-  for (int scen = 0; scen < 4; scen++) for (int src = 0; src < 3; src++) for (int i = 0; i < np; i++) {
-    if (src == 2 && P[i].kind != AK_FILTER && P[i].kind != AK_MAP) continue;   /* copy of Range/Slice/Zip raises on this tree */
+  for (int scen = 0; scen < 4; scen++) for (int src = 0; src < 4; src++) for (int i = 0; i < np; i++)
     a_case(&P[i], &other[P[i].kind], src, scen);
-  }
 }
 
 /* ==== phase=midop: a refused operation in the middle of an iteration ==========================================
@@ -1706,6 +1733,72 @@ static void phase_midop(void) {
   if (!m_rangeneg) vf_note("not judged on this run (rangeneg=0): get(-len-1) / get(-1000000) on Range and Slice (they return a value instead of raising; proposed/D29-range-get-negative-beyond-front.md)");
 }
 
+/* ==== phase=gcitems: items a heap view hands out stay alive while they are current ============================
+**
+** A Map whose function returns a fresh collector-managed object per element, zipped on the heap (new(Zip, ...)) with a
+** Range or with a second such Map, and the stack zip() of the same inputs.  Between iter_next / iter_prev and the use
+** of the pair the dead stack is scrubbed and garbage is allocated (so collections run); the element is then fetched
+** from the pair and must be a live Int with the value the function produced.  Nothing but the view keeps it reachable.
+*/
+
+static var g_fresh(var x) { return new(Int, $I(c_int(x) * 7 + 1000000)); }
+static void __attribute__((noinline)) g_scrub(void) { volatile char pad[32768]; for (size_t i = 0; i < sizeof pad; i++) pad[i] = 0; }
+static void __attribute__((noinline)) g_churn(int k) { for (int i = 0; i < 40; i++) { var g = new(Int, $I(i + k)); (void)g; } }
+static int64_t __attribute__((noinline)) g_component(var pair, int i) { return c_int(get(pair, $I(i))); }
+
+static volatile int g_n; static const char* volatile g_bad; static volatile int64_t g_got, g_want;
+static void g_walk(var z, int backward, int N, int mapfirst, int both) {
+  g_n = 0; g_bad = NULL;
+  vf.executions++;
+  for (var pair = backward ? iter_last(z) : iter_init(z); pair isnt Terminal; pair = backward ? iter_prev(z, pair) : iter_next(z, pair)) {
+    if (g_n >= N + HORIZON) { g_bad = "nonterminating"; return; }
+    g_scrub(); g_churn(g_n); g_scrub();
+    int idx = backward ? N - 1 - g_n : g_n;
+    int64_t want_map = (int64_t)idx * 7 + 1000000;
+    for (int c = 0; c < 2; c++) {
+      int is_map = both || (c == (mapfirst ? 0 : 1));
+      g_want = is_map ? want_map : idx;
+      g_got = g_component(pair, c);
+      if (g_got != g_want) { g_bad = "wrong-value"; return; }
+    }
+    g_n = g_n + 1;
+  }
+  if (g_n != N) g_bad = g_n < N ? "too-few" : "too-many";
+}
+
+static void phase_gcitems(void) {
+  static const int sizes[] = { 3, 50, 300 };
+  int gmax = (int)vf_param_i("gmax", 300);
+  static const char* shape[] = { "new-zip(new-range,new-map)", "new-zip(new-map,new-range)", "new-zip(new-map,new-map)", "zip(new-range,new-map)" };
+  var fn = $(Function, g_fresh);
+  for (size_t si = 0; si < sizeof sizes / sizeof sizes[0]; si++) for (int sh = 0; sh < 4; sh++) for (int dir = 0; dir < 2; dir++) {
+    int N = sizes[si]; if (N > gmax) continue;
+    char cs[160]; snprintf(cs, sizeof cs, "gcitems %s over array[%d] dir=%s", shape[sh], N, dir ? "bwd" : "fwd");
+    if (vf.replay && strcmp(vf.replay, cs) != 0) continue;
+    vf_watchdog(120);
+    vf_set_cur("%s", cs);
+    snprintf(phasebuf, sizeof phasebuf, "gcitems/%s/%s", shape[sh], dir ? "bwd" : "fwd"); vf.phase = phasebuf;
+    vf.evaluations++; vf.nontrivial++;
+    var src = new(Array, Int); for (int i = 0; i < N; i++) push(src, $I(i));
+    var idx = new(Range, $I(N));
+    var m1 = new(Map, src, fn); var m2 = new(Map, src, fn);
+    volatile var z = NULL;
+    var e = VF_CATCH({
+      if (sh == 0) z = new(Zip, idx, m1);
+      if (sh == 1) z = new(Zip, m1, idx);
+      if (sh == 2) z = new(Zip, m1, m2);
+      if (sh == 3) { var sz = zip(idx, m1); g_walk(sz, dir, N, 0, 0); }
+      else g_walk((var)z, dir, N, sh == 1, sh == 2);
+    });
+    char label[200];
+    if (e) { snprintf(label, sizeof label, "gcitems/%s/%s/raises", shape[sh], dir ? "bwd" : "fwd"); vf_violation(label, NULL, "after %d items the walk raised %s: an item handed out by the view is no longer a live object (reclaimed while current?)", g_n, vf_exc_name(e)); }
+    else if (g_bad) { snprintf(label, sizeof label, "gcitems/%s/%s/%s", shape[sh], dir ? "bwd" : "fwd", g_bad); vf_violation(label, NULL, "item %d: %s (read %" PRId64 ", the function produced %" PRId64 "; %d of %d items seen)", g_n, g_bad, (int64_t)g_got, (int64_t)g_want, g_n, N); }
+    else if (vf_want_sample()) vf_sample("%s -> %d live items", cs, N);
+    var de = VF_CATCH({ if (z) del((var)z); del(m1); del(m2); del(idx); del(src); });
+    if (de && !e && !g_bad) { snprintf(label, sizeof label, "gcitems/%s/%s/del-raises", shape[sh], dir ? "bwd" : "fwd"); vf_violation(label, NULL, "deleting the views raised %s", vf_exc_name(de)); }
+  }
+}
+
 int main(int argc, char** argv) {
   vf_init(argc, argv);
   vf_set_init(&outcomes, 4096);
@@ -1740,6 +1833,7 @@ int main(int argc, char** argv) {
   else if (strcmp(ph, "history") == 0) phase_history();
   else if (strcmp(ph, "assign") == 0) phase_assign();
   else if (strcmp(ph, "midop") == 0) phase_midop();
+  else if (strcmp(ph, "gcitems") == 0) phase_gcitems();
   else { fprintf(stderr, "h_iter: unknown phase %s\n", ph); _exit(2); }
   alarm(0);
   vf_extra("judged_aspects", "%" PRIu64, judged_aspects);
